@@ -29,14 +29,15 @@ def tla_seq(xs):
     return "<<" + ", ".join('"%s"' % x for x in xs) + ">>"
 
 
-def mc(kinds, max_sends, bug=None, props=True, timeout=600):
+def mc(kinds, max_sends, bug=None, props=True, timeout=600, abandon=False):
     mcm = "---- MODULE MCAcks ----\nEXTENDS Acks\nKS == %s\n====\n" % tla_seq(kinds)
     cfg = ["SPECIFICATION Spec", "CONSTANTS", " Kinds <- KS", " ForeignIds = {9}", " MaxSends = %d" % max_sends, " SendSet <- AllSends"]
     for b in ("BugKindOnly", "BugIdOnly", "BugNoDelete"):
         cfg.append(" %s = %s" % (b, "TRUE" if b == bug else "FALSE"))
+    cfg.append(" AllowAbandon = %s" % ("TRUE" if abandon else "FALSE"))
     cfg += ["CHECK_DEADLOCK FALSE", "INVARIANTS ReturnOnlyOnOwnAck DoneNeedsAllAcks"]
     if props:
-        cfg.append("PROPERTIES ForeignHarmless")
+        cfg.append("PROPERTIES ForeignHarmless" + (" AbandonedIsFinal" if abandon else ""))
     return vlib.tlc("MCAcks", cfg="MCAcks.cfg", files={"MCAcks.tla": mcm, "MCAcks.cfg": "\n".join(cfg) + "\n"}, workers=min(8, vlib.NCPU), timeout=timeout, heap="8g")
 
 
@@ -57,7 +58,7 @@ def simulate_scripts(kinds, num, depth, sseed):
     sendset = own + own + rnd.sample(wrong, min(len(wrong), 3)) + [(rnd.choice(own)[0], 9)]
     ss = "{" + ", ".join('<<"%s", %d>>' % p for p in sorted(set(sendset))) + "}"
     mcm = "---- MODULE MCAcks ----\nEXTENDS Acks\nKS == %s\nSS == %s\n====\n" % (tla_seq(kinds), ss)
-    cfg = "SPECIFICATION Spec\nCONSTANTS\n Kinds <- KS\n ForeignIds = {9}\n MaxSends = %d\n SendSet <- SS\n BugKindOnly = FALSE\n BugIdOnly = FALSE\n BugNoDelete = FALSE\nCHECK_DEADLOCK FALSE\nINVARIANTS ReturnOnlyOnOwnAck DoneNeedsAllAcks\n" % (len(own) + 3)
+    cfg = "SPECIFICATION Spec\nCONSTANTS\n Kinds <- KS\n ForeignIds = {9}\n MaxSends = %d\n SendSet <- SS\n BugKindOnly = FALSE\n BugIdOnly = FALSE\n BugNoDelete = FALSE\n AllowAbandon = FALSE\nCHECK_DEADLOCK FALSE\nINVARIANTS ReturnOnlyOnOwnAck DoneNeedsAllAcks\n" % (len(own) + 3)
     d = vlib.scratch("verif-sim-")
     r = vlib.tlc("MCAcks", cfg="MCAcks.cfg", files={"MCAcks.tla": mcm, "MCAcks.cfg": cfg}, workers=1, timeout=300,
                  simulate="file=%s/beh,num=%d" % (d, num), depth=depth, tlc_seed=sseed)
@@ -223,6 +224,10 @@ def run(tier):
     binary = vlib.build_harness()
     r = vlib.tlc_ok(mc(["pub2", "sub"], 4), "Acks model")
     states, gen = r.states, r.generated
+    # callers that give up while they wait (their waiter entry stays behind): the same invariants + AbandonedIsFinal
+    ra = vlib.tlc_ok(mc(["pub2", "sub"], 3, abandon=True), "Acks model with abandoned requests")
+    states += ra.states
+    gen += ra.generated
     if tier == "thorough":
         r2 = vlib.tlc_ok(mc(["pub1", "pub2", "unsub"], 3, props=False), "Acks model 3 callers")
         states += r2.states
